@@ -10,13 +10,19 @@
 // Key types. VK.validateT is parametric in the predicate keyOK (key type, key); the driver instantiates it with
 // four fixed predicates: k0 = length >= 2, k1 = length <= 1, k2 = the key "zz", k3 = length >= 3. One table in
 // three uses exactly these as the real key types (@k0 = "ab" {minLength: 2}, @k1 = "a" {maxLength: 1}, @k2 = "zz"
-// without rules, @k3 = "abc" {minLength: 3}). The other tables draw 1-3 STRING TYPES WITH ARBITRARY RULE SETS
-// (no rule = equality with the example, enum, any non-empty subset of regex / minLength / maxLength, optionally
-// with type "string", rules in random order) and, per type, probe keys that satisfy every rule and probe keys
-// that violate EXACTLY ONE rule while satisfying the others (plus keys violating several). Whether a string
-// type accepts a key is computed in Go (regexp, byte length, enum membership) and CHECKED AGAINST THE LEAN RULE
-// MODEL for every (type, key) pair in use (driver word `semcf`, RulesF.litOKFull, regex as an oracle bit: the
-// protocol of sem-rules-full). The table is then expressed in the fixed vocabulary of `semk` by renaming: every
+// without rules, @k3 = "abc" {minLength: 3}). The other tables draw 1-3 STRING TYPES WITH ARBITRARY RULE SETS out of
+// everything a string type can carry (no rule = equality with the example, enum with or without `type: "enum"`, any
+// non-empty subset of regex / minLength / maxLength, a format type `type: "email" | "uri" | "uuid" | "date" |
+// "datetime"`, optionally `type: "string"`, const / nullable true or false next to any of them, rules in random
+// order) and, per type, probe keys that satisfy every rule and probe keys that violate EXACTLY ONE rule while
+// satisfying the others (plus keys violating several; for a format type values around the format's accepted set,
+// formats.go). Whether a string type accepts a key is computed in Go (regexp, byte length, enum membership,
+// equality with the example for const, net/mail / net/url / time / the uuid forms for the formats) and CHECKED
+// AGAINST THE LEAN RULE MODEL for every (type, key) pair in use (driver word `semcf`, RulesF.litOKFull, regex / mail
+// / url / RFC 3339 as oracle bits: the protocol of sem-rules-full) AND AGAINST THE REAL LIBRARY validating the key
+// as a value of the type alone; the same pair is put to the real library as a key under the one-entry root
+// `{ @K: 1 }`: admitted there exactly when accepted as a value (the property's own wording, no model involved).
+// The table is then expressed in the fixed vocabulary of `semk` by renaming: every
 // real type takes one of the slots k0..k3 and every real key k is sent as a model key whose verdicts under the
 // four fixed predicates equal the verdicts of k under the real types in the same slots (keys are only compared
 // for equality otherwise, so an injective renaming preserves the model's meaning; named keys are renamed the
@@ -76,6 +82,8 @@ type gen struct {
 	r    *rand.Rand
 	kc   *keyCtx
 	near bool   // the document sampled last gives a shortcut a key that violates exactly one rule of its key type
+	typd bool   // … gives a shortcut whose key type carries an explicit `type` rule a key that type accepts
+	fmtd bool   // … and that rule names a format
 	mut  string // kind of the last document mutation
 	look bool   // the document printed last holds a look-alike string
 }
@@ -354,6 +362,10 @@ func (g *gen) sample(n *Node, types map[string]*Node, fuel int) *Doc {
 						g.near = true
 					case len(acc) > 0:
 						k = acc[r.Intn(len(acc))]
+						if t := g.kc.bySlot[p.Key]; t.typ != "" {
+							g.typd = true
+							g.fmtd = g.fmtd || t.format() != ""
+						}
 					default:
 						continue
 					}
@@ -524,6 +536,29 @@ func validate(kc *keyCtx, rootText string, typeTexts map[string]string, order []
 	})
 }
 
+// keyVsValue: the real library on one (string type, key) pair: `{"<key>": 1}` against the root `{ @K: 1 }` (admitted under
+// the shortcut or not: the root has no other way to take a key), and `"<key>"` against the type alone.
+func keyVsValue(t *keyType, key string) (asKey, asValue string) {
+	one := func(rootText string, withType bool, doc string) string {
+		return vh.Recover(func() string {
+			s := jschema.New("root", rootText)
+			if withType {
+				if err := s.AddType("@K", jschema.New("@K", t.text)); err != nil {
+					return "ADDERR " + errCode(err) + " " + err.Error()
+				}
+			}
+			if err := s.Check(); err != nil {
+				return "CHECKERR " + errCode(err) + " " + err.Error()
+			}
+			if err := s.Validate(jdoc.New("doc", doc)); err != nil {
+				return "REJ"
+			}
+			return "ACC"
+		})
+	}
+	return one("{\n  @K: 1\n}", true, "{"+quote(key)+": 1}"), one(t.text, false, quote(key))
+}
+
 // features of the schema reachable from the root (through references).
 type feat struct {
 	refs, multiRef, nullable, nullableRef, recursive bool
@@ -646,9 +681,19 @@ type oneCase struct {
 	stats             []string
 }
 
+// keyProbe: one (string type, key) pair of a table judged by the real library alone, the way the property words it: the
+// key under `{@K: 1}` against the key as a VALUE of the type @K.
+type keyProbe struct {
+	id, input      string
+	goOK           bool   // the verdict the table's renaming was built from
+	ruleFree       bool   // the type without (surviving) rules: stands for its example
+	asKey, asValue string // ACC | REJ | …
+}
+
 type tableResult struct {
 	stats    []string
 	cases    []oneCase
+	probes   []keyProbe
 	oracle   []string // semcf requests: does the key type accept the key …
 	oracleGo []bool   // … and the verdict the renaming was built from
 	oracleIn []string // the key types as text
@@ -703,6 +748,12 @@ func oneTable(seed int64) tableResult {
 	res.stats = append(res.stats, "tables_checked", "root_"+root.Kind)
 	res.stats = append(res.stats, g.kc.stats...)
 	res.oracle, res.oracleGo = g.kc.oracle, g.kc.oracleGo
+	for _, p := range g.kc.pairs {
+		pr := keyProbe{id: p.t.text + "\x00" + p.key, goOK: p.ok, ruleFree: p.t.ruleFree(),
+			input: "SCHEMA:\n{\n  @K: 1\n}\nTYPES (AddType name = text):\n@K = " + p.t.text + "\nDOCUMENT: {" + quote(p.key) + ": 1}\nKEY AS A VALUE: schema " + p.t.text + " , document " + quote(p.key)}
+		pr.asKey, pr.asValue = keyVsValue(p.t, p.key)
+		res.probes = append(res.probes, pr)
+	}
 	for _, t := range g.kc.types {
 		res.oracleIn = append(res.oracleIn, "@"+t.slot+" = "+t.text)
 	}
@@ -733,11 +784,17 @@ func oneTable(seed int64) tableResult {
 		var st []string
 		switch {
 		case j < 5:
-			g.near = false
+			g.near, g.typd, g.fmtd = false, false, false
 			d = g.sample(root, types, 6)
 			st = append(st, "doc_sampled")
 			if g.near {
 				st = append(st, "doc_sampled_with_key_violating_exactly_one_rule_under_shortcut")
+			}
+			if g.typd {
+				st = append(st, "doc_sampled_with_accepted_key_under_shortcut_of_explicitly_typed_string")
+			}
+			if g.fmtd {
+				st = append(st, "doc_sampled_with_accepted_key_under_shortcut_of_format_type")
 			}
 		case j < 10:
 			g.mut = "none"
@@ -783,10 +840,11 @@ func oneTable(seed int64) tableResult {
 }
 
 func Run(args []string) {
-	rep := vh.NewReport(command, "random type tables as in sem-addprops (4 named types, root of depth<=3, recursive references, nullable, additionalProperties in every mode) where two objects in three get 0-2 key shortcuts @k0..@k3 (required or optional, inserted at random positions among the named properties). KEY TYPES: one table in three uses the four fixed key types whose accepted sets are the driver's predicates (minLength 2, maxLength 1, no rules = equality with the example, minLength 3: overlapping key sets; 11 document keys of length 1-4); two tables in three draw 1-3 string types with arbitrary rule sets: no rule, enum (1-4 items), any non-empty subset of regex (12 patterns) / minLength / maxLength (two or three rules 3 times in 4), optionally type string, rules in random order; per type the key pool gets up to 2 keys satisfying every rule, up to 2 keys per rule violating EXACTLY that rule while satisfying the others (the example one character longer / shorter at either end, one character replaced by a letter of another class, repeated to maxLength+1, cut to minLength-1), a key violating several, plus common keys; names of properties are drawn from the same pool. The verdict (string type, key) is computed in Go and checked against the Lean rule model RulesF.litOKFull (driver semcf, regex as oracle bit) for every pair in use (component sem-keys/key-type-oracle); the table is sent to VK.validateT in the fixed vocabulary of driver semk by renaming: each real type takes one slot k0..k3 and each real key is sent as a model key with the same verdict vector under the four fixed predicates (injective; keys whose vector no model key has are left out of the pool; the slot assignment keeps most of the pool); a diff's note lists the renaming. JSight text -> real AddType/Check/Validate, same IR with shortcuts tagged K in declaration order -> Lean VK.validateT; 12 documents per table: 5 sampled from the schema (a shortcut gets a key its key type accepts, 2 times in 5 a key violating exactly one rule of it; the extra member under additionalProperties gets a key no key type accepts 3 times in 4), 5 sampled then mutated, 2 random; tables refused by Check are skipped and counted by error code; nontrivial = an object with a key shortcut is reachable from the root; document string scalars are drawn every second time from a pool of 32 strings whose content looks like another JSON kind (\"1.5\", \"a.b\", \"true\", \"null\", \"{}\", \"1e5\", \"\", \" \", the same with \\u escapes), also as the value of the extra member under every additionalProperties mode one time in four; a case whose document holds such a string is validated 8 times and every repeat must give the model verdict (UNSTABLE otherwise); a difference on a table where a non-nullable reference position whose names all end in a cycle of pure references (@a = @a: no alternative at all) is reachable from the root carries the class K-C09-cycle")
+	rep := vh.NewReport(command, "random type tables as in sem-addprops (4 named types, root of depth<=3, recursive references, nullable, additionalProperties in every mode) where two objects in three get 0-2 key shortcuts @k0..@k3 (required or optional, inserted at random positions among the named properties). KEY TYPES: one table in three uses the four fixed key types whose accepted sets are the driver's predicates (minLength 2, maxLength 1, no rules = equality with the example, minLength 3: overlapping key sets; 11 document keys of length 1-4); two tables in three draw 1-3 string types with arbitrary rule sets out of everything a string type can carry: no rule, enum (1-4 items; every second time with type enum), any non-empty subset of regex (12 patterns) / minLength / maxLength (two or three rules 3 times in 4), a FORMAT type (type email / uri / uuid / date / datetime, 5 types in 20, the example a valid value from a pool or composed from parts), optionally type string, next to any of them const and nullable true or false (one type in three from the 3 x 3 grid absent / true / false), rules in random order; a type none of whose rules survives compilation (no rule; only type string / const false / nullable false) stands for its example; a format type gets as key probes 3 values the format accepts, 4 it refuses, 6 composed from boundary parts (dates over leap / common / century years x month x day 0..32 and layout variants, datetimes with out-of-range fields, fractions and zones, uuids in the four forms with one anomaly, e-mail local x domain x wrapper, uri scheme x separator x authority x tail: generators of sem-rules-full) and a value of another format, verdict by net/mail / net/url / time / an own reading of the uuid forms (keys are printable ASCII without quote and backslash); per type the key pool gets up to 2 keys satisfying every rule, up to 2 keys per rule violating EXACTLY that rule while satisfying the others (the example one character longer / shorter at either end, one character replaced by a letter of another class, repeated to maxLength+1, cut to minLength-1), a key violating several, plus common keys; names of properties are drawn from the same pool. The verdict (string type, key) is computed in Go and checked against the Lean rule model RulesF.litOKFull (driver semcf, regex as oracle bit) for every pair in use (component sem-keys/key-type-oracle); the table is sent to VK.validateT in the fixed vocabulary of driver semk by renaming: each real type takes one slot k0..k3 and each real key is sent as a model key with the same verdict vector under the four fixed predicates (injective; keys whose vector no model key has are left out of the pool; the slot assignment keeps most of the pool); a diff's note lists the renaming. JSight text -> real AddType/Check/Validate, same IR with shortcuts tagged K in declaration order -> Lean VK.validateT; 12 documents per table: 5 sampled from the schema (a shortcut gets a key its key type accepts, 2 times in 5 a key violating exactly one rule of it; the extra member under additionalProperties gets a key no key type accepts 3 times in 4), 5 sampled then mutated, 2 random; tables refused by Check are skipped and counted by error code; nontrivial = an object with a key shortcut is reachable from the root; document string scalars are drawn every second time from a pool of 32 strings whose content looks like another JSON kind (\"1.5\", \"a.b\", \"true\", \"null\", \"{}\", \"1e5\", \"\", \" \", the same with \\u escapes), also as the value of the extra member under every additionalProperties mode one time in four; a case whose document holds such a string is validated 8 times and every repeat must give the model verdict (UNSTABLE otherwise); besides the tables every distinct (generated string type, pool key) pair is put to the real library alone, as the property words it: {\"<key>\": 1} against the root { @K: 1 } must be accepted exactly when \"<key>\" is accepted by the type @K alone as a value (component sem-keys/key-admitted-iff-value-accepted; for a type standing for its example: exactly the example, component sem-keys/key-of-type-without-rules; both verdicts equal but different from the harness verdict: sem-keys/key-type-oracle-vs-library); a difference on a table where a non-nullable reference position whose names all end in a cycle of pure references (@a = @a: no alternative at all) is reachable from the root carries the class K-C09-cycle")
 	r := vh.NewRand(salt)
 	nTables := vh.Pick(4000, 100000)
 	oracleSeen := map[string]struct{}{}
+	probeSeen := map[string]struct{}{}
 	const batch = 4000
 	for done := 0; done < nTables; done += batch {
 		n := batch
@@ -830,6 +888,33 @@ func Run(args []string) {
 				inputs = append(inputs, c.input)
 				classes = append(classes, c.class)
 				notes = append(notes, c.line+c.key)
+			}
+			// every (string type, key) pair of the table, real library alone: admitted under the shortcut <=> accepted as a value
+			for _, p := range res.probes {
+				if _, ok := probeSeen[p.id]; ok {
+					continue
+				}
+				probeSeen[p.id] = struct{}{}
+				rep.Stat("key_vs_value_pairs")
+				want := map[bool]string{true: "ACC", false: "REJ"}[p.goOK]
+				if p.ruleFree {
+					// the type without rules stands for its example as a key type (as a value type it accepts every string)
+					rep.Stat("key_vs_value_pairs_type_without_rules")
+					if p.asKey != want {
+						rep.AddDiff(vh.Diff{Component: command + "/key-of-type-without-rules", Input: p.input, Impl: "as a key: " + p.asKey,
+							Model: "a string type none of whose rules decides (no rule; type string; const false; nullable false) admits the key that is its example, no other: " + want})
+					}
+					continue
+				}
+				rep.Stat("key_vs_value_" + p.asKey + "_" + p.asValue)
+				if p.asKey != p.asValue {
+					rep.AddDiff(vh.Diff{Component: command + "/key-admitted-iff-value-accepted", Input: p.input,
+						Impl:  "as a key under @K: " + p.asKey + "; as a value of @K: " + p.asValue,
+						Model: "@K: v admits under that entry exactly the keys the string type @K accepts (harness verdict for this pair: " + want + ")"})
+				} else if p.asValue != want {
+					rep.AddDiff(vh.Diff{Component: command + "/key-type-oracle-vs-library", Level: "correspondence", Input: p.input,
+						Impl: "as a key and as a value: " + p.asValue, Model: "harness verdict " + want})
+				}
 			}
 			// the verdicts of the key types the renaming was built from, against the Lean rule model
 			for i, l := range res.oracle {
